@@ -17,6 +17,7 @@
 // 3. This notice may not be removed or altered from any source distribution.
 
 #include <assert.h>
+#include <atomic>
 
 #include "TaskScheduler.h"
 #include "LockLessMultiReadPipe.h"
@@ -322,6 +323,12 @@ void TaskScheduler::WaitForTasks( uint32_t threadNum )
 
 void TaskScheduler::WakeThreads(  int32_t maxToWake_ )
 {
+    // The caller has just published a task (a plain store to a pipe or list) and now reads
+    // m_NumThreadsWaiting; a thread going to sleep does the opposite (announces itself waiting,
+    // then checks the pipes). Without a full (StoreLoad) fence on this side both can miss each
+    // other and the task stays queued while every worker sleeps.
+    std::atomic_thread_fence( std::memory_order_seq_cst );
+
     if( maxToWake_ > 0 && maxToWake_  < m_NumThreadsWaiting )
     {
         SemaphoreSignal( m_NewTaskSemaphore, maxToWake_ );
